@@ -166,9 +166,11 @@ class Runner:
         spec = self.spec_run(lines)
         self.streams_out.append((lines, list(impl)))
         impl2, model2 = [], []
+        failed = False     # a verdict was given in the current history: what follows is a consequence
         for i, line in enumerate(lines):
             if line.startswith("mode "):
                 self.model_cmp.reset(); self.spec_cmp.reset()
+                failed = False
             im, mo, sp = impl[i], model[i], spec[i]
             if im == "skipped":
                 impl2.append(im); model2.append(mo); continue
@@ -180,6 +182,11 @@ class Runner:
                 w = "implementation `%s`, specification `%s`" % (im[:300], sp[:300])
             if w is None and self.judge_line:
                 w = self.judge_line(line, im)
+            if failed:
+                impl2.append(im + " \t#0:0"); model2.append(im + " \t#0:0")
+                continue
+            if w:
+                failed = True
             self.spec_lines += 1
             tag = "%s%d:%d" % (TAG, sid, i)
             if w:
@@ -205,6 +212,9 @@ class Runner:
         dis, judged, crashes = self.chk.correspond("optim", "h_optim", streams, stateful=True, judge=self.judge,
                                                    post=self.post, **kw)
         for rec in dis + judged:
+            t = untag(rec["impl"])[1]
+            rec["tag"] = tuple(map(int, t.split(":"))) if t else None
+            rec["spec"] = self.spec_out.get(rec["tag"], "")
             rec["impl"] = untag(rec["impl"])[0]
             rec["model"] = untag(rec["model"])[0]
         # evidence samples carry the tag: strip it
@@ -215,11 +225,16 @@ class Runner:
         return dis, judged, crashes
 
 
+_EXE = None
+
+
 def fails_on_impl(lines, want=None):
     """Re-run lines on implementation and specification; the first violating
     line index and verdict or None (used for shrinking)."""
-    exe = build.build_harness("h_optim")
-    impl, reports = vrun.run_impl(exe, lines, stateful=True)
+    global _EXE
+    if _EXE is None:
+        _EXE = build.build_harness("h_optim")
+    impl, reports = vrun.run_impl(_EXE, lines, stateful=True)
     spec = vrun.run_model("optim", ["engine spec"] + lines)[1:]
     c = StreamCmp(TOL_SPEC)
     for i, line in enumerate(lines):
